@@ -213,6 +213,19 @@ def cases(rng, tier):
         d2 = VL.vdict([(rebuild(rng, k), VL.vint(200 + i)) for i, k in enumerate(keys2)])
         merged = VL.vdict(d.payload + d2.payload)
         yield Case(program=render(bi('ㄴ', bi('ㄷ', d.expr, d2.expr), merged.expr)), tag='dict-merge', monitor='c06_expect', data='True')
+        # … also when the *same dictionary object* was compared / used as a key / looked up before it is merged: the merged
+        # dictionary is a new value with its own structural key (seeded change S06l let the merge inherit the first operand's
+        # memoised key). x is bound once, as the argument of a function; m = x ㄷ d2
+        X, M = "ㄱㅇㄱ", f"(ㄱㅇㄱ ({render(d2.expr)}) ㄷㅎㄷ)"
+        same = pybool(VL.spec_eq(d, merged))
+        wx = lambda body: f"({render(d.expr)}) ({body} ㅎ) ㅎㄴ"
+        yield Case(program=wx(f"{X} {M} ㄴㅎㄷ"), tag='dict-merge-after-key', monitor='c06_expect', data=same)
+        yield Case(program=wx(f"({X} {X} ㄴㅎㄷ) ({M} {X} ㄴㅎㄷ) ({X} {M} ㄴㅎㄷ) ㅁㄹㅎㄹ"), tag='dict-merge-after-key', monitor='c06_expect',
+                   data=f"[True, {same}, {same}]")
+        yield Case(program=wx(f"({X} ({X} ㅂ ㅅㅈㅎㄷ) ㅎㄴ) (({M} ({X} ㅂ ㅅㅈㅎㄷ) ㅎㄴ) (ㄴㄱ ㅎ) ㅅㄷㅎㄷ) ㅁㄹㅎㄷ"), tag='dict-merge-after-key',
+                   monitor='c06_expect', data=f"[5, {'5' if same == 'True' else '-1'}]")
+        yield Case(program=wx(f"(({X} ㅁㄹㅎㄴ) ({X} ㅁㄹㅎㄴ) ㄴㅎㄷ) (({M} ㅁㄹㅎㄴ) ({X} ㅁㄹㅎㄴ) ㄴㅎㄷ) ㅁㄹㅎㄷ"), tag='dict-merge-after-key',
+                   monitor='c06_expect', data=f"[True, {same}]")
         try:
             want = VL.spec_format(merged)
         except ValueError:      # complex keys: printed form is C18's business
